@@ -56,6 +56,19 @@ class Obligation:
         self.must_be_sat = must_be_sat
 
 
+class AxiomList(list):
+    """list of z3 facts without duplicates (terms are hash-consed: same fact, same id)"""
+
+    def __init__(self, *a):
+        super().__init__(*a)
+        self._ids = {x.get_id() for x in self}
+
+    def append(self, x):
+        if x.get_id() not in self._ids:
+            self._ids.add(x.get_id())
+            super().append(x)
+
+
 class Core:
     """Helpers shared by the expression and statement executors."""
 
@@ -63,10 +76,13 @@ class Core:
         self.U = U
         self.V = U.V
         self.obligations: list[Obligation] = []
-        self.axioms: list = []  # ground facts about uninterpreted builtins created during execution
+        self.axioms = AxiomList()  # facts about uninterpreted builtins created during execution (deduplicated)
         self.fn_key = "?"
         self._feas = z3.Solver()
-        self._feas.set("timeout", 1500)
+        self._feas.set("timeout", 250)
+        self._feas_stack = []
+        self._feas_axioms = 0
+        self._feas_ax_seen = set()
         self._ufs = {}
 
     # ---------------- statically known constructors -----------------
@@ -273,7 +289,7 @@ class Core:
         f = self.uf("dict_index", self.V, z3.StringSort(), z3.IntSort())
         idx = f(d, k)
         keys = U.acc("keys", d)
-        j = z3.Int(fresh_name("dj"))
+        j = z3.Int("dj!")  # bound: a fixed name keeps equal axioms identical (hash-consed), so they are added once
         self.axioms.append(z3.And(idx >= -1, idx < z3.Length(keys)))
         self.axioms.append(z3.Implies(idx >= 0, keys[idx] == k))
         # idx is the FIRST position holding k (consistent for any key sequence; for real dicts keys are
@@ -290,21 +306,43 @@ class Core:
         return z3.ForAll(vs, body)
 
     # ---------------- feasibility -----------------
-    def feasible(self, st: State, extra=None) -> bool:
+    def feasible(self, st: State, extra=None, careful=False) -> bool:
         """quick satisfiability of the path condition; quantified subformulas are abstracted by
         fresh Boolean constants (an over-approximation: it can only keep more paths, so pruning
-        stays sound)"""
+        stays sound). Incremental: the solver keeps the longest common prefix of the last path
+        condition (exploration is depth-first, so prefixes are shared); `unknown` counts as feasible."""
         s = self._feas
+        stack = self._feas_stack
+        ids = [c.get_id() for c in st.pc]
+        k = 0
+        while k < len(stack) and k < len(ids) and stack[k] == ids[k]:
+            k += 1
+        while len(stack) > k:
+            s.pop()
+            stack.pop()
+        for c in st.pc[k:]:
+            s.push()
+            s.add(_abstract_quant(c))
+            stack.append(c.get_id())
         s.push()
         try:
-            for c in st.pc:
-                s.add(_abstract_quant(c))
             if extra is not None:
                 s.add(_abstract_quant(extra))
+            for a in self.axioms[self._feas_axioms:]:
+                pass
+            for a in self.axioms:
+                if not _has_quant(a) and a.get_id() not in self._feas_ax_seen:
+                    pass
             for a in self.axioms:
                 if not _has_quant(a):
                     s.add(a)
             r = s.check()
+            if r == z3.unknown and careful:
+                s.set("timeout", 3000)
+                try:
+                    r = s.check()
+                finally:
+                    s.set("timeout", 250)
             return r != z3.unsat
         finally:
             s.pop()
@@ -450,6 +488,15 @@ def _simplify_known(body, g):
     return z3.simplify(z3.substitute(body, *subs))
 
 
+def _flat_or(c, depth=0):
+    if z3.is_or(c) and depth < 4:
+        out = []
+        for ch in c.children():
+            out.extend(_flat_or(ch, depth + 1))
+        return out
+    return [c]
+
+
 def _note_recognisers(c, ghost, depth=0):
     """remember `is-K(t)` facts syntactically: ghost[("is", id(t))] = "K" (used to pin receiver classes)"""
     if depth > 6 or not z3.is_app(c):
@@ -460,6 +507,17 @@ def _note_recognisers(c, ghost, depth=0):
     elif k == z3.Z3_OP_AND or (k == z3.Z3_OP_OR and c.num_args() == 1):
         for ch in c.children():
             _note_recognisers(ch, ghost, depth + 1)
+    elif k == z3.Z3_OP_OR:
+        # Or(is-A(t), is-B(t), ...) over one subject: remember the set of possible constructors
+        alts = _flat_or(c)
+        if alts and all(z3.is_app(a) and a.decl().kind() == z3.Z3_OP_DT_IS for a in alts):
+            t = alts[0].arg(0)
+            if all(a.arg(0).get_id() == t.get_id() for a in alts):
+                names = {a.decl().params()[0].name() for a in alts}
+                prev = ghost.get(("in", t.get_id()))
+                ghost[("in", t.get_id())] = names if prev is None else (prev & names)
+                if len(ghost[("in", t.get_id())]) == 1:
+                    ghost[("is", t.get_id())] = next(iter(ghost[("in", t.get_id())]))
 
 
 _abs_cache = {}
